@@ -201,6 +201,25 @@ theorem step_local (m : Mux) (ev : MEv) (k : Key) (hk : target m ev ≠ some k) 
         · cases h
         · cases h; rfl
       · cases h; rfl
+  | shut k' =>
+    have hne : k' ≠ k := fun e => hk (by simp [target, e])
+    simp only [mStep]
+    have key : ∀ r, shut m k' = r → lookup r.1.tubes k = lookup m.tubes k := by
+      intro r hr
+      unfold shut at hr
+      split at hr
+      · rename_i t ht
+        have htk := lookup_key ht
+        split at hr
+        · subst hr
+          apply lookup_setTube_ne
+          show t.key ≠ k
+          rw [htk]; exact hne
+        · subst hr; rfl
+      · subst hr; rfl
+    split
+    · rename_i m' h; exact key _ h
+    · rename_i m' h; exact key _ h
   | read k' n =>
     have hne : k' ≠ k := fun e => hk (by simp [target, e])
     simp only [mStep]
@@ -329,6 +348,19 @@ theorem step_keys (m : Mux) (ev : MEv) (hn : KeysNodup m) : KeysNodup (mStep m e
         · cases h
         · cases h; exact hn
       · cases h; exact hn
+  | shut k =>
+    simp only [mStep]
+    have key : ∀ r, shut m k = r → KeysNodup r.1 := by
+      intro r hr
+      unfold shut at hr
+      split at hr
+      · split at hr
+        · subst hr; unfold KeysNodup; rw [setTube_keys]; exact hn
+        · subst hr; exact hn
+      · subst hr; exact hn
+    split
+    · rename_i m' h; exact key _ h
+    · rename_i m' h; exact key _ h
   | read k n =>
     simp only [mStep]
     have key : ∀ r, readTube m k n = r → KeysNodup r.1 := by
@@ -359,5 +391,48 @@ theorem run_keys : ∀ (evs : List MEv) (m : Mux), KeysNodup m → KeysNodup (mR
     intro m h
     simp only [mRun]
     exact ih _ (step_keys m e h)
+
+/-! ### the reservation: a closed tube that is still in the map swallows every frame -/
+
+theorem deliver_closed (t : Tube) (f : Frame) (h : t.state = .closed) : deliver t f = .ok t := by
+  unfold deliver
+  split
+  · unfold initTube; simp [h]
+  · split
+    · unfold relReceive; simp [h]
+    · unfold unrelReceive; simp [h]
+
+theorem setTube_self (ts : List Tube) (t : Tube) (hn : (ts.map Tube.key).Nodup)
+    (h : lookup ts t.key = some t) : setTube ts t = ts := by
+  unfold setTube
+  induction ts with
+  | nil => rfl
+  | cons v vs ih =>
+    simp only [List.map_cons, List.nodup_cons] at hn
+    unfold lookup at h ih
+    rw [List.find?_cons] at h
+    rw [List.map_cons]
+    by_cases hv : v.key = t.key
+    · simp only [hv, decide_true, Option.some.injEq] at h
+      subst h
+      simp only [if_true]
+      congr 1
+      -- no other element has this key
+      have hid : ∀ u ∈ vs, (if u.key = v.key then v else u) = id u := by
+        intro u hu
+        have hne : u.key ≠ v.key := fun e => hn.1 (e ▸ List.mem_map_of_mem (f := Tube.key) hu)
+        simp [hne]
+      rw [List.map_congr_left hid, List.map_id]
+    · simp only [hv, decide_false] at h
+      simp only [hv, if_false]
+      rw [ih hn.2 h]
+
+theorem onFrame_closed (m : Mux) (f : Frame) (t : Tube) (hn : KeysNodup m)
+    (hl : lookup m.tubes (f.rel, f.tubeID) = some t) (hc : t.state = .closed) : onFrame m f = .ok m := by
+  unfold onFrame
+  rw [hl]
+  simp only [deliver_closed t f hc, Outcome.bind]
+  have hk := lookup_key hl
+  rw [setTube_self m.tubes t hn (by rw [hk]; exact hl)]
 
 end Tubes
